@@ -89,6 +89,8 @@ def build_plan(choice: Choice, tier):
     p["writer_scripts"] = scripts
     # after flush(): the storage is used again by a fresh writer process
     p["reuse_after_flush"] = [[g, f"again{g}"] for g in ([0, 1] if d(2, "reuse.two") else [0])] if d(3, "reuse") == 2 else []
+    # the writer of the reuse phase may have been forked BEFORE the flush (it opens the storage only afterwards)
+    p["reuse_forked_early"] = bool(p["reuse_after_flush"]) and d(2, "reuse.forked.early") == 1
     rs = []
     universe = n + 2
     for r in range(p["readers"]):
@@ -216,8 +218,9 @@ def scenario(k: Kernel, plan, obs):
     obs["storage"] = storage
 
     class Actor(ctx.Process):
-        def __init__(self, storage, script, who, writer, hist=hist):
+        def __init__(self, storage, script, who, writer, hist=hist, gate=None):
             super().__init__()
+            self.gate = gate
             self.hist = hist
             self.storage = storage
             self.script = script
@@ -226,6 +229,8 @@ def scenario(k: Kernel, plan, obs):
             self.sim_role = "writer" if writer else "reader"
 
         def run(self):
+            if self.gate is not None:
+                self.gate.wait()       # forked early, told to start later
             self.storage.reader_only = not self.writer
             self.storage.open()
             try:
@@ -266,6 +271,12 @@ def scenario(k: Kernel, plan, obs):
         with open(os.path.join(tmp, fn), "rb") as f:
             q["files"][fn] = f.read().decode("utf-8", "replace")
     obs["quiescent"] = q
+    early = None
+    if plan.get("reuse_forked_early"):
+        hist2 = History()
+        gate = ctx.Event()
+        early = Actor(storage, [["store", g, t] for g, t in plan["reuse_after_flush"]], "w-again", True, hist2, gate)
+        early.start()          # the fork happens here, before the flush
     obs["phase"] = "flush"
     storage.flush()
     fl = {"files_left": sorted(os.listdir(tmp)), "len": len(storage)}
@@ -282,9 +293,13 @@ def scenario(k: Kernel, plan, obs):
     if plan["reuse_after_flush"]:
         obs["phase"] = "reuse"
         TornFileIO.fail = None      # the faults stop before the storage is used again
-        hist2 = History()
-        w = Actor(storage, [["store", g, t] for g, t in plan["reuse_after_flush"]], "w-again", True, hist2)
-        w.start()
+        if early is not None:
+            w = early
+            gate.set()
+        else:
+            hist2 = History()
+            w = Actor(storage, [["store", g, t] for g, t in plan["reuse_after_flush"]], "w-again", True, hist2)
+            w.start()
         w.join()
         storage.reader_only = True
         with storage:
